@@ -151,6 +151,28 @@ def run(case):
             c.cmp(f"params{k}/stress", "stress of the tensortrax and the jax model", a.gradient([F, sv])[0], b.gradient([F, sv])[0], tol, labels)
             c.cmp(f"params{k}/elasticity", "elasticity of the tensortrax and the jax model", a.hessian([F, sv])[0], b.hessian([F, sv])[0], tol * 10 if tol > 1e-6 else tol, labels)
             c.trans += 4
+            # parameter containers: the same constants handed over as float64 arrays / tuples (optimisers store arrays), each
+            # material evaluated several times: nothing may be written into the caller's parameter objects and the results stay
+            P_ref, A_ref = np.asarray(a.gradient([F, sv])[0], float), np.asarray(a.hessian([F, sv])[0], float)
+            for clab, conv in (("float-arrays", lambda v: np.array(v, dtype=float) if isinstance(v, (list, tuple)) else float(v)), ("tuples-ints", lambda v: tuple(v) if isinstance(v, (list, tuple)) else (int(v) if float(v).is_integer() else v))):
+                kw2 = {kk: conv(v) for kk, v in kw.items()}
+                keep = {kk: np.array(v, dtype=float, copy=True) for kk, v in kw2.items() if not callable(v)}
+                for backend, mk in (("tt", lambda: fem.Hyperelastic(getattr(C, n), **kw2)), ("jax", lambda: CJ.Hyperelastic(getattr(CJ.models.hyperelastic, n), **kw2))):
+                    try:
+                        m2 = mk()
+                        outs = [np.asarray(m2.gradient([F, sv])[0], float), np.asarray(m2.hessian([F, sv])[0], float), np.asarray(m2.gradient([F, sv])[0], float), np.asarray(m2.hessian([F, sv])[0], float)]
+                    except Exception as ex:  # noqa
+                        c.notes.append(f"{n}/{backend}/{clab}: {ex!r}"[:140])
+                        continue
+                    c.trans += 4
+                    tl = max(tol, 1e-10) * (10 if backend == "jax" else 1)
+                    c.cmp(f"params{k}/{clab}/{backend}/stress-call1", "stress with parameters given in another container", outs[0], P_ref, tl, labels)
+                    c.cmp(f"params{k}/{clab}/{backend}/elasticity-call2", "elasticity after an earlier stress evaluation (parameters in another container)", outs[1], A_ref, tl * 10)
+                    c.cmp(f"params{k}/{clab}/{backend}/stress-call3", "stress of the third evaluation of the same material object", outs[2], P_ref, tl, labels)
+                    c.cmp(f"params{k}/{clab}/{backend}/elasticity-call4", "elasticity of the fourth evaluation", outs[3], A_ref, tl * 10)
+                    for kk, v0 in keep.items():
+                        if not np.array_equal(np.asarray(kw2[kk], dtype=float), v0):
+                            c.bad(f"params{k}/{clab}/{backend}/parameter-mutated/{kk}", "the caller's parameter object was modified by evaluating the material", np.asarray(kw2[kk], dtype=float).tolist(), v0.tolist(), 0)
         return c.result(dict(case=case["key"], lattice_points=int(F.shape[2]), parameter_sets=len(models.TT_PARAMS[n])))
     if kind == "morph":
         a = C.tensortrax.Material(C.tensortrax.models.lagrange.morph, p=models.MORPH_P, nstatevars=13)
